@@ -160,6 +160,50 @@ fn main() {
                 .collect();
             println!("[{}]", hits.join(",\n"));
         }
+        "find-sm2-small" => {
+            // off-line search: messages whose reference signature (fixed d, k, default ID) has r (mode 0) or s (mode 1)
+            // below 2^256 - n, so that r + n (s + n) still fits in 32 bytes. ~2^32 trials.
+            use num_bigint::BigUint;
+            use rayon::prelude::*;
+            use refimpl::field::{from_be, mod_inv};
+            let mode: u32 = args[2].parse().unwrap();
+            let trials: u64 = args[3].parse().unwrap();
+            let pr = refimpl::sm2::params();
+            let n = pr.n.clone();
+            let d = from_be(&engine::expand_bytes(0x5133, 32)) % (&n - 2u32) + 1u32;
+            let k = from_be(&engine::expand_bytes(0x5134, 32)) % (&n - 1u32) + 1u32;
+            let pk = refimpl::sm2::g_mul(&d);
+            let za = refimpl::sm2::za(b"1234567812345678", &pk);
+            let x1 = refimpl::sm2::g_mul(&k).unwrap().0.v;
+            let inv = mod_inv(&((&d + 1u32) % &n), &n).unwrap();
+            let bound = (BigUint::from(1u32) << 256) - &n;
+            let chunk = 1u64 << 20;
+            let hit = (0..trials / chunk).into_par_iter().find_map_any(|c| {
+                let mut buf = [0u8; 40];
+                buf[..32].copy_from_slice(&za);
+                for i in c * chunk..(c + 1) * chunk {
+                    buf[32..].copy_from_slice(&i.to_be_bytes());
+                    let e = refimpl::sm3::sm3(&buf);
+                    // quick filter on r for mode 0: r = e + x1 mod n
+                    let r = (from_be(&e) + &x1) % &n;
+                    if mode == 0 {
+                        if r < bound && r != BigUint::from(0u32) {
+                            return Some(i);
+                        }
+                    } else {
+                        let s = (&inv * ((&k + &n - (&r * &d) % &n) % &n)) % &n;
+                        if s < bound && s != BigUint::from(0u32) {
+                            return Some(i);
+                        }
+                    }
+                }
+                None
+            });
+            match hit {
+                Some(i) => println!("{{\"mode\":{},\"d\":\"{:064x}\",\"k\":\"{:064x}\",\"msg\":\"{}\"}}", mode, d, k, hex::encode(i.to_be_bytes())),
+                None => println!("none"),
+            }
+        }
         "replay" => {
             let code = replay_file(&args[2], Tier::Quick, seed, false);
             std::process::exit(code);
